@@ -16,8 +16,12 @@ Magnitude(ptype, mag, fnum, fden, lb, ub) ==
 Raw(x, m, s) == x + m * s
 
 \* ---- implementation-shaped: MIRROR_REPEAT = 3 rounds of reflection on the side first violated, then clip
-MirrorLow(v, lb, ub)  == LET a == IF v < lb THEN 2 * lb - v ELSE v IN IF a > ub THEN 2 * ub - a ELSE a
-MirrorHigh(v, lb, ub) == LET a == IF v > ub THEN 2 * ub - v ELSE v IN IF a < lb THEN 2 * lb - a ELSE a
+\* (one reflection at the side first violated, a second one if that overshoots the opposite bound; written without LET so
+\*  that proofs/KernelProofs.tla can carry the very same text)
+MirrorLow(v, lb, ub)  == IF v < lb THEN (IF 2 * lb - v > ub THEN 2 * ub - (2 * lb - v) ELSE 2 * lb - v)
+                         ELSE (IF v > ub THEN 2 * ub - v ELSE v)
+MirrorHigh(v, lb, ub) == IF v > ub THEN (IF 2 * ub - v < lb THEN 2 * lb - (2 * ub - v) ELSE 2 * ub - v)
+                         ELSE (IF v < lb THEN 2 * lb - v ELSE v)
 ApplyImpl(v, lb, ub, type) ==
   CASE type = "none"     -> v
     [] type = "truncate" -> Clip(v, lb, ub)
